@@ -272,3 +272,40 @@ def replay_e1_split(detail):
 
 
 KINDS['e1_split'] = replay_e1_split
+
+
+def replay_h_hist(detail):
+    """first call then second call on shared frames + tokenizer; second compared with isolation."""
+    repo.load()
+    s1, s2 = detail['scenario'], detail['scenario2']
+    L, R = scenario.real_frames(s1)
+    L0, R0 = L.copy(deep=True), R.copy(deep=True)
+    tok = scenario.real_tokenizer(s1)
+    mode0 = tok.get_return_set()
+    lines = ['first: %s/%s  second: %s/%s  tokenizer.return_set=%r' % (
+        s1['entry'], s1.get('filter'), s2['entry'], s2.get('filter'), mode0),
+        'left:\n%s\nright:\n%s' % (L.to_string(), R.to_string())]
+    try:
+        scenario.call_entry(s1, L, R, tok)
+        mode1 = tok.get_return_set()
+        shared = oracle.Result.of(scenario.call_entry(s2, L, R, tok))
+        mode2 = tok.get_return_set()
+        L2, R2 = scenario.real_frames(s2)
+        fresh = oracle.Result.of(scenario.call_entry(s2, L2, R2, scenario.real_tokenizer(s2)))
+    except Exception as e:
+        lines.append('call raised %s: %s' % (type(e).__name__, e))
+        return True, '\n'.join(lines)
+    bad = False
+    if mode1 != mode0 or mode2 != mode0:
+        lines.append('tokenizer return_set: before %r, after first %r, after second %r' % (mode0, mode1, mode2))
+        bad = True
+    if not _frames_equal(L, L0) or not _frames_equal(R, R0):
+        lines.append('an input table was modified')
+        bad = True
+    if shared.columns != fresh.columns or scenario.norm_rows(shared) != scenario.norm_rows(fresh):
+        lines.append('second call after the first: %r\nsecond call in isolation: %r' % (shared.rows, fresh.rows))
+        bad = True
+    return bad, '\n'.join(lines)
+
+
+KINDS['h_hist'] = replay_h_hist
